@@ -11,6 +11,7 @@ import TemporalModel.Props.C11
 import TemporalModel.Lemmas.DateLemmas
 import TemporalModel.Lemmas.DurationLemmas
 import TemporalModel.Lemmas.SafeBase
+import TemporalModel.Spec.GrammarZoned
 namespace TemporalModel
 open Gram
 
@@ -231,6 +232,28 @@ theorem C12_zone_annotation_decides (off : Option POffset) (crit : Bool) (n : Li
 
 theorem C12_zone_needs_offset_or_annotation : zoneOfParts none none = none := rfl
 
+/-- **Zoned strings.** A ZonedDateTime string without a bracketed time zone is a RangeError whatever the options; a
+relativeTo string without one is a plain date and then may not carry `Z`; with one, the date-time is resolved by the
+wall-clock rules of C13 under (compatible, offset must match). -/
+theorem C12_zoned_requires_annotation (cs : List Char) (r : DateTimeRec) (dis : Disamb) (oo : OffsetOpt)
+    (h : dateTime cs = some r) (hz : r.tz = none) : zonedDateTime cs dis oo = .err .range := by
+  unfold zonedDateTime
+  rw [h]
+  simp only [hz]
+
+theorem C12_relative_plain_refuses_Z (cs : List Char) (r : DateTimeRec) (h : dateTime cs = some r)
+    (hz : r.tz = none) (ho : r.offset = some .z) : relativeTo cs = .err .range := by
+  unfold relativeTo
+  rw [h]
+  simp only [hz, ho]
+  split <;> simp
+
+theorem C12_unparsable_is_range (cs : List Char) (dis : Disamb) (oo : OffsetOpt) (h : dateTime cs = none) :
+    zonedDateTime cs dis oo = .err .range ∧ relativeTo cs = .err .range := by
+  unfold zonedDateTime relativeTo
+  rw [h]
+  exact ⟨rfl, rfl⟩
+
 end TemporalModel
 
 #print axioms TemporalModel.C12_digitsN
@@ -243,3 +266,5 @@ end TemporalModel
 #print axioms TemporalModel.C12_month_code_zero
 #print axioms TemporalModel.C12_short_forms
 #print axioms TemporalModel.C12_zone_offset_exact
+#print axioms TemporalModel.C12_zoned_requires_annotation
+#print axioms TemporalModel.C12_relative_plain_refuses_Z
